@@ -30,7 +30,7 @@ ID = "C13"
 LEVEL = "exploration"
 RULE = (
     "every declared id and every public APIClient method is one distinct case: (tables/id) text of api.proto vs compiled "
-    "descriptors vs the three runtime tables, all rows; (route) 1-12 frames of declared ids with generated valid payloads "
+    "descriptors vs the three runtime tables, all rows; (route) 1-12 frames of declared ids with generated valid payloads, interleaved with repeated undeclared ids (which must reach nobody), "
     "on plaintext|noise sessions with a subscriber per class, plus the reverse direction through send_message; (sweep) "
     "sequences of 1-8 public API calls (argument variant 0-5 per recipe, negotiated API version from {1.0,1.2,1.4,1.10}, "
     "login on/off, returned unsubscribe handles invoked) with a device that answers every request, a keepalive tick and a "
@@ -187,13 +187,16 @@ def run_route(case: dict) -> CaseResult:
             conn.add_message_callback(lambda m, _n=name: got.append((cur["i"], type(m).__name__, m.SerializeToString())), (cls,))
         tr = sess.dsess.transport
         for k, (i, spec) in enumerate(case["frames"]):
+            if tr.closing:
+                break
+            cur["i"] = k
+            if i not in tids:  # undeclared id: "nothing else is" in the table -> no class, no delivery
+                tr.feed(sess.dsess.encode((i, bytes.fromhex(spec.get("hex", "")))))
+                continue
             name = tids[i]
             cls = getattr(api_pb2, name)
             msg = pbgen.build(cls, spec)
             payload = msg.SerializeToString()
-            if tr.closing:
-                break
-            cur["i"] = k
             expect.append((k, name, payload))
             tr.feed(sess.dsess.encode((i, payload)))
             if i == 5:
@@ -361,7 +364,12 @@ def _route(draw, tier):
     server_side = sorted(i for i, n in tids.items() if i not in (5,))
     client_side = sorted(i for i, n in tids.items() if SRC[T[n]["source"]] != 1 and i not in (5, 6))
     frames = []
+    mx = max(tids)
     for _ in range(draw(st.integers(1, 12))):
+        if draw(st.integers(0, 5)) == 0:  # undeclared id, possibly repeated
+            u = draw(st.sampled_from([mx + 1, mx + 2, 0, 200, 65535]))
+            frames += [[u, {"hex": draw(st.sampled_from(["", "0801", "0d0000803f"]))}]] * draw(st.integers(1, 3))
+            continue
         i = draw(st.sampled_from(server_side))
         frames.append([i, draw(pbgen.message_strategy(getattr(api_pb2, tids[i])))])
     send = []
@@ -399,6 +407,10 @@ def enumerated(tier):
     for lo in range(0, len(ids_), 16):
         yield {"kind": "route", "noise": (lo // 16) % 2 == 1, "frames": [[i, {}] for i in ids_[lo:lo + 16]], "send": [[i, {}] for i in cs[lo // 2: lo // 2 + 8]]}
     yield {"kind": "route", "noise": False, "frames": [[7, {}], [5, {}]], "send": []}
+    mx = max(tids)
+    for u in (0, mx + 1, 65535):
+        for known in (25, 26, mx):
+            yield {"kind": "route", "noise": u == 65535, "frames": [[known, {}], [u, {"hex": "0801"}], [u, {"hex": "0801"}], [u, {"hex": ""}], [known, {}]], "send": []}
     for m in _api_methods():
         for v in range(6):
             yield {"kind": "sweep", "noise": v == 5, "login": v != 4, "api": [[1, 10], [1, 0], [1, 2], [1, 4], [1, 10], [1, 10]][v], "calls": [[m, v]],
